@@ -2120,6 +2120,8 @@ def serialize_tensor_into(
         # Directly copy from the tensor proto if it is available
         tensor_proto.CopyFrom(from_.raw)
         if from_.metadata_props:
+            # The copied proto already carries its metadata entries: replace them, do not append
+            tensor_proto.ClearField("metadata_props")
             _serialize_metadata_props_into(tensor_proto.metadata_props, from_.metadata_props)
         return
 
